@@ -46,7 +46,7 @@ theorem flat_balanced (edges : List (Nat × List Nat)) (fuel : Nat) :
 @[simp] theorem fp_atom (d n ts) : fparen d (FTok.atom n :: ts) = fparen d ts := rfl
 @[simp] theorem fp_bond (d a b ts) : fparen d (FTok.bond a b :: ts) = fparen d ts := rfl
 
-theorem closureBond_shape {m opts n k vb bt vb1} (h : closureBond m opts n k vb = .ok (bt, vb1)) :
+theorem closureBond_shape {m opts sc n k vb bt vb1} (h : closureBond m opts sc n k vb = .ok (bt, vb1)) :
     bt = [] ∨ ∃ s, bt = [WTok.bond s] := by
   unfold closureBond at h
   split at h
@@ -59,8 +59,8 @@ theorem closureBond_shape {m opts n k vb bt vb1} (h : closureBond m opts n k vb 
     · cases h
     · simp only [Except.ok.injEq, Prod.mk.injEq] at h; exact Or.inr ⟨_, h.1.symm⟩
 
-theorem emitClosures_noparen (m : Mol) (opts : Opts) (casted : List (Nat × Nat)) (n : Nat) :
-    ∀ (cl vb : List (Nat × Nat)) cts vb', emitClosures m opts casted n cl vb = .ok (cts, vb') →
+theorem emitClosures_noparen (m : Mol) (opts : Opts) (sc : SCtx) (casted : List (Nat × Nat)) (n : Nat) :
+    ∀ (cl vb : List (Nat × Nat)) cts vb', emitClosures m opts sc casted n cl vb = .ok (cts, vb') →
       ∀ d rest, parenDepth d (cts ++ rest) = parenDepth d rest := by
   intro cl
   induction cl with
@@ -82,8 +82,8 @@ theorem emitClosures_noparen (m : Mol) (opts : Opts) (casted : List (Nat × Nat)
           have := ih vb1 rest' vb2 hr d rest
           rcases closureBond_shape hb with hbt | ⟨s, hbt⟩ <;> subst hbt <;> simp [this]
 
-theorem emit_parens (m : Mol) (opts : Opts) (casted : List (Nat × Nat)) (tokens : List (Nat × List (Nat × Nat))) :
-    ∀ (smi : List FTok) vb out order vb', emit m opts casted tokens smi vb = .ok (out, order, vb') →
+theorem emit_parens (m : Mol) (opts : Opts) (sc : SCtx) (casted : List (Nat × Nat)) (tokens : List (Nat × List (Nat × Nat))) :
+    ∀ (smi : List FTok) vb out order vb', emit m opts sc casted tokens smi vb = .ok (out, order, vb') →
       ∀ d, parenDepth d out = fparen d smi := by
   intro smi
   induction smi with
@@ -106,7 +106,7 @@ theorem emit_parens (m : Mol) (opts : Opts) (casted : List (Nat × Nat)) (tokens
               simp only [Except.ok.injEq, Prod.mk.injEq] at h
               rw [← h.1]
               simp only [pd_atom, fp_atom]
-              rw [emitClosures_noparen m opts casted n _ _ _ _ hc]
+              rw [emitClosures_noparen m opts sc casted n _ _ _ _ hc]
               exact ih _ _ _ _ hr d
     | bond a b =>
       simp only [emit] at h
